@@ -320,6 +320,69 @@ let run_talign line =
   | None -> "OOB"
   | Some r -> String.concat "," (List.map (fun b -> string_of_int (int_of_n b)) (colspec r))
 
+(* ---------- C03: abstract document -> source text (in a spelling) and specified HTML
+   "<smart> <compat> <bullet> <emch> <lead> <closing> <rule> <tabs> <crlf> | <document tokens>" -> hex(spell) hex(render) *)
+let run_spec line =
+  match String.index_opt line '|' with
+  | None -> "?"
+  | Some k ->
+    let hd = split_on ' ' (String.sub line 0 k) and toks = ref (split_on ' ' (String.sub line (k + 1) (String.length line - k - 1))) in
+    let next () = match !toks with t :: r -> toks := r; t | [] -> failwith "eof" in
+    let peek () = match !toks with t :: _ -> t | [] -> "" in
+    let hexs t = if t = "-" then [] else bytes_of_hex t in
+    let opt t = if t = "-" then None else Some (bytes_of_hex t) in
+    let rec inls () = (* "(" inl* ")" *)
+      if next () <> "(" then failwith "( expected";
+      let acc = ref [] in
+      while peek () <> ")" do acc := inl () :: !acc done;
+      ignore (next ()); List.rev !acc
+    and inl () =
+      let t = next () in
+      let body = String.sub t 1 (String.length t - 1) in
+      match t.[0] with
+      | 'T' -> IText (hexs body)
+      | 'E' -> IEmph (inls ())
+      | 'S' -> IStrong (inls ())
+      | 'C' -> ICode (hexs body)
+      | 'L' -> let tx = inls () in let u = next () in let ti = next () in ILink (tx, hexs u, opt ti)
+      | 'A' -> IAuto (hexs body)
+      | 'M' -> let u = next () in let ti = next () in IImage (hexs body, hexs u, opt ti)
+      | 'X' -> IEsc (n_of_int (int_of_string body))
+      | 'a' -> IAmp | 'l' -> ILt | 'g' -> IGt
+      | 'N' -> IEntity (hexs body)
+      | 'b' -> IBreak
+      | 'U' -> ISup (hexs body) | 'D' -> ISub (hexs body) | 'H' -> IMath (hexs body)
+      | 'Q' -> IQuote (inls ())
+      | '2' -> IDash2 | '3' -> IDash3 | 'e' -> IEllipsis
+      | 'P' -> let b = next () in IApos (hexs body, hexs b)
+      | _ -> failwith ("bad inline " ^ t) in
+    let lines () = let acc = ref [] in while peek () <> ";" do acc := hexs (next ()) :: !acc done; ignore (next ()); List.rev !acc in
+    let group f = if next () <> "(" then failwith "( expected"; let acc = ref [] in while peek () <> ")" do acc := f () :: !acc done; ignore (next ()); List.rev !acc in
+    let cell () = let c = inls () in let sp = nat_of_int (int_of_string (next ())) in (c, sp) in
+    let blk () =
+      match next () with
+      | "para" -> BPara (inls ())
+      | "atx" -> let n = nat_of_int (int_of_string (next ())) in BAtx (n, inls ())
+      | "setext" -> let n = nat_of_int (int_of_string (next ())) in BSetext (n, inls ())
+      | "hr" -> BHr
+      | "fenced" -> let l = hexs (next ()) in BFenced (l, lines ())
+      | "indented" -> BIndented (lines ())
+      | "quote" -> BQuote (group inls)
+      | "list" -> let o = next () = "o" in let l = next () = "l" in
+        BList (o, l, group (fun () -> let t = inls () in let sub = group inls in (t, sub)))
+      | "table" -> let al = next () in
+        let aligns = List.init (String.length al) (fun i -> match al.[i] with 'l' -> ALeft | 'c' -> ACenter | 'r' -> ARight | _ -> ANone) in
+        let header = group cell in let rows = group (fun () -> group cell) in BTable (aligns, header, rows)
+      | t -> failwith ("bad block " ^ t) in
+    let doc = let acc = ref [] in (while !toks <> [] do acc := blk () :: !acc done); List.rev !acc in
+    (match hd with
+     | [sm; cp; bu; em; ld; cl; ru; tb; cr] ->
+       let o = { smart = (sm = "1"); compat = (cp = "1") } in
+       let sp = { bullet = n_of_int (int_of_string bu); emch = n_of_int (int_of_string em); lead = nat_of_int (int_of_string ld);
+                  closing = nat_of_int (int_of_string cl); rule = nat_of_int (int_of_string ru); tabs = (tb = "1"); crlf = (cr = "1") } in
+       hex_of_bytes (spell sp doc) ^ " " ^ hex_of_bytes (render o sp doc)
+     | _ -> "?")
+
 let () =
   let model = Sys.argv.(1) in
   let f = match model with
@@ -336,6 +399,7 @@ let () =
     | "outline" -> run_outline
     | "metaswitch" -> run_metaswitch
     | "talign" -> run_talign
+    | "spec" -> run_spec
     | _ -> failwith "unknown model" in
   try while true do
     let line = input_line stdin in
